@@ -57,6 +57,7 @@ let observe (addr : bool) (s : state) (c : cstate) (nh : int) : int list =
     end;
     List.iter (fun x -> push (iz x)) (abs s (ni i))
   done;
+  if addr then push (iofn (outstanding c));
   List.rev !out
 
 let show_obs (addr : bool) (s : state) (c : cstate) (nh : int) : string =
@@ -74,6 +75,7 @@ let show_obs (addr : bool) (s : state) (c : cstate) (nh : int) : string =
     Buffer.add_string b (String.concat " " (List.map (fun x -> string_of_int (iz x)) (abs s (ni i))));
     Buffer.add_string b "] "
   done;
+  if addr then Buffer.add_string b (Printf.sprintf "out=%d " (iofn (outstanding c)));
   Buffer.contents b
 
 (* persistent allocator state (the pool of the implementation persists across sequences too) *)
@@ -87,8 +89,8 @@ let mix x = let x = x + 5 in
 let cleanup fx elsize nh (s : state) : unit =
   let s = ref s in
   for i = 0 to nh - 1 do
-    let r = step fx !s (ODestroy (ni i)) in
-    pool := apply_events !tab elsize !pool r.r_ev; s := r.r_s
+    let ((s1, c1), _) = cstep fx !tab elsize (!s, !pool) (ODestroy (ni i)) in
+    pool := c1; s := s1
   done;
   pool := compact_c !pool
 
@@ -97,10 +99,9 @@ let exec fx elsize nh (ops : op list) : (int * int) option * state =
   let rec go s k = function
     | [] -> (None, s)
     | o :: rest ->
-      let r = step fx s o in
-      (match r.r_df with
-       | Some d -> (Some (k, defect_code d), s)      (* the defective call is not executed *)
-       | None -> pool := apply_events !tab elsize !pool r.r_ev; go r.r_s (k + 1) rest) in
+      (match cstep fx !tab elsize (s, !pool) o with
+       | (_, Some d) -> (Some (k, defect_code d), s)      (* the defective call is not executed *)
+       | ((s1, c1), None) -> pool := c1; go s1 (k + 1) rest) in
   go (init (ni nh)) 0 ops
 
 let cmd_seq fx elsize addr nh (toks : string list) : string =
@@ -109,12 +110,11 @@ let cmd_seq fx elsize addr nh (toks : string list) : string =
   let rec go s k = function
     | [] -> s
     | o :: rest ->
-      let r = step fx s o in
-      (match r.r_df with
-       | Some d -> Buffer.add_string b (Printf.sprintf "| df=%d " (defect_code d)); s
-       | None ->
-         pool := apply_events !tab elsize !pool r.r_ev;
-         Buffer.add_string b ("| " ^ show_obs addr r.r_s !pool nh); go r.r_s (k + 1) rest) in
+      (match cstep fx !tab elsize (s, !pool) o with
+       | (_, Some d) -> Buffer.add_string b (Printf.sprintf "| df=%d " (defect_code d)); s
+       | ((s1, c1), None) ->
+         pool := c1;
+         Buffer.add_string b ("| " ^ show_obs addr s1 !pool nh); go s1 (k + 1) rest) in
   let s = go (init (ni nh)) 0 ops in
   cleanup fx elsize nh s;
   Buffer.contents b
@@ -135,7 +135,7 @@ let alphabet nh (sizes : int list) : aop list =
   List.rev !l
 let op_of (a : aop) (k : int) : op =
   match a.kind with
-  | 'B' -> OBuild (ni a.h, ni a.arg, zi (100 * (k + 1)))
+  | 'B' -> OBuild (ni a.h, ni a.arg, zi (if k mod 2 = 1 then 0 else 100 * (k + 1)))
   | 'W' -> OWithCopy (ni a.h, ni a.arg) | 'N' -> ONoCopy (ni a.h, ni a.arg)
   | 'L' -> OLogcopy (ni a.h, ni a.arg) | 'C' -> OCopy (ni a.h, ni a.arg)
   | 'A' -> OAllocate (ni a.h, ni a.arg) | 'R' -> OReallocate (ni a.h, ni a.arg)
@@ -183,11 +183,10 @@ let cmd_enum fx elsize addr nh sizes lmax (prefix : string list) : string =
   visit (List.rev pre) (List.length pre) mx;
   Printf.sprintf "%d %d %d %d" !nodes !ndef !h1 !h2
 
-(* allocator-level sequences *)
+(* allocator-level sequences: the machine Model.pstep (slots are append-only; the pool persists across sequences) *)
 let apool : astate ref = ref ainit
 let cmd_alloc fixed0 (toks : string list) : string =
-  let slots : nat option array = Array.make 4096 None in
-  let nslots = ref 0 in
+  let st = ref { p_a = !apool; p_slots = [] } in
   let b = Buffer.create 256 in
   let show_df = function None -> "" | Some AIndexMinus1 -> "!idx-1" | Some ATooBig -> "!toobig"
                        | Some ABadFree -> "!badfree" in
@@ -196,26 +195,24 @@ let cmd_alloc fixed0 (toks : string list) : string =
     let args = List.map int_of_string (String.split_on_char ',' (String.sub t 1 (String.length t - 1))) in
     match t.[0], args with
     | 'a', [sz] ->
-      let ((a1, p), d) = fl_allocate fixed0 !tab !apool (zi sz) in
-      (match d with
-       | Some _ -> ()
-       | None -> apool := a1);
-      slots.(!nslots) <- (match d with Some _ -> None | None -> p); nslots := !nslots + 1;
-      Buffer.add_string b (Printf.sprintf "%s%s " (match d with Some _ -> "x" | None -> show_p !apool p) (show_df d))
+      let ((s1, p), d) = pstep fixed0 !tab !st (PAlloc (zi sz)) in
+      st := s1;
+      Buffer.add_string b (Printf.sprintf "%s%s " (match d with Some _ -> "x" | None -> show_p s1.p_a p) (show_df d))
     | 'f', [k] ->
-      let (a1, d) = fl_desallocate !apool slots.(k) in
-      apool := a1;
+      let ((s1, _), d) = pstep fixed0 !tab !st (PFree (ni k)) in
+      st := s1;
       Buffer.add_string b (Printf.sprintf "f%s " (show_df d))
     | 'r', [k; o; n] ->
-      let ((a1, p), d) = fl_resize !tab !apool slots.(k) (zi o) (zi n) in
-      (match d with Some ATooBig | Some AIndexMinus1 -> () | _ -> apool := a1);
-      slots.(!nslots) <- p; nslots := !nslots + 1;
-      Buffer.add_string b (Printf.sprintf "%s%s " (show_p !apool p) (show_df d))
+      let ((s1, p), d) = pstep fixed0 !tab !st (PResize (ni k, zi o, zi n)) in
+      st := s1;
+      Buffer.add_string b (Printf.sprintf "%s%s " (show_p s1.p_a p) (show_df d))
     | _ -> failwith ("bad alloc op " ^ t)) toks;
+  apool := !st.p_a;
   (* free-list population of every class that is non-empty *)
   let classes = List.sort_uniq compare (List.map (fun (k, _) -> iofn k) !apool.a_free) in
   List.iter (fun k -> let l = tabfree !apool (ni k) in
               if l <> [] then Buffer.add_string b (Printf.sprintf "F%d:%s " k (String.concat "," (List.map (fun p -> string_of_int (iofn p)) l)))) classes;
+  Buffer.add_string b (Printf.sprintf "O%d " (List.length !apool.a_out));
   apool := { !apool with a_free = compact !apool.a_free; a_cls = compact !apool.a_cls };
   Buffer.contents b
 
